@@ -126,7 +126,7 @@ class C06(vlib.PropertyCheck):
     def extra_steps(self, ctx):
         """the same programs under ASan/UBSan: use after free, double free, overflow"""
         out = []
-        cases = getattr(self, '_cases', [])
+        cases = ownlib.corpus_cases(self.id) + getattr(self, '_cases', [])
         if not cases or not ctx['model_exe']:
             return out
         exe, log = ownlib.build_asan('c06-%s-asan' % ctx['tier'])
